@@ -582,4 +582,38 @@ def saveUnderFault (tmp : String) (chunks : List (List Nat)) (fault : Option (Na
 /-- the fault RLIMIT_FSIZE = `limit` produces on a save writing `total` bytes: none when everything fits. -/
 def efbigOutcome (limit total : Nat) : SaveReturn := if total ≤ limit then .ok else .err
 
+/-! ### the legacy `.fav4` migration (fav4.go): Load with only a `.fav4` present
+
+`fav4ReadFavrec` reads a record like `ReadFavrec` but WITHOUT the count guard (a negative sum reaches
+`make`) and without a version word; a board entry has the same 14 bytes, a line the same 3. A folder entry
+cannot be read at all: `BinRead` hands `encoding/binary` a `FavFolder`, whose pointer field it refuses — the
+migration of a `.fav4` holding a folder ends with ErrInvalidFav4Record. (Entry types other than 1/2/3 are
+kept by the Go code as payload-less entries; they are not representable here.) `TryFav4Load` then runs
+`Save` on the tree (cleanup drops the entries without the FAV bit), producing `.fav`. -/
+
+def fav4Read (bs : List Nat) : M (Option Fav) :=
+  match bs with
+  | b0 :: b1 :: nL :: nF :: rest =>
+    let nB := dec16 b0 b1
+    let total := total16 nB nL nF
+    if neg16 total then .error .panic
+    else
+      match readEntries total rest with
+      | none => .ok none
+      | some (ents, _) =>
+        if ents.any Item.isFolder then .ok none
+        else do
+          match ← attach (fun _ => .ok none) ents [] 0 0 with
+          | none => pure none
+          | some (items, _) => pure (some ⟨nB, nL, nF, items⟩)
+  | _ => .ok none
+
+/-- `Load` when only `.fav4` exists: the new `.fav` image (none: the migration failed, nothing is written). -/
+def fav4Migrate (bs : List Nat) : M (Option (List Nat)) := do
+  match ← fav4Read bs with
+  | none => pure none
+  | some f =>
+    let b ← saveBytes f
+    pure (some b)
+
 end PttVerif.C19
